@@ -19,6 +19,12 @@ class fs_provider : public ifs_provider
 public:
     std::string read_file(const std::filesystem::path& path) override
     {
+        std::error_code ec;
+        if(std::filesystem::is_directory(path, ec))
+        {
+            throw_error("can't read file: `{}` is a directory", path);
+        }
+
         std::ifstream is{path, std::ios::in | std::ios::binary | std::ios::ate};
         if(is)
         {
